@@ -264,7 +264,7 @@ fn bid128_from_string_clear_status(str: &str, rnd_mode: RoundingMode, pfpsf: &mu
         res.w[1] = if range.eq_ignore_ascii_case("inf") || range.eq_ignore_ascii_case("infinity") {
             // Infinity
             0x7800000000000000u64
-        } else if range.len() >= 4 && range[0..4].eq_ignore_ascii_case("snan") { // return sNaN
+        } else if range.get(0..4).is_some_and(|prefix| prefix.eq_ignore_ascii_case("snan")) { // return sNaN
             // case-insensitive check for snan
             0x7e00000000000000u64
         } else { // return qNaN
@@ -288,7 +288,7 @@ fn bid128_from_string_clear_status(str: &str, rnd_mode: RoundingMode, pfpsf: &mu
         return res;
     }
     // if +sNaN, +SNaN, -sNaN, or -SNaN
-    if range.len() >= 4 && range[0..4].eq_ignore_ascii_case("snan") {
+    if range.get(0..4).is_some_and(|prefix| prefix.eq_ignore_ascii_case("snan")) {
         res.w[0] = 0;
         res.w[1] = if c == Some('-') {
             0xfe00000000000000u64
@@ -453,9 +453,9 @@ fn bid128_from_string_clear_status(str: &str, rnd_mode: RoundingMode, pfpsf: &mu
             ps += 1;
             c   = str.chars().nth(ps);
 
-            if c.is_some() && !char::is_digit(c.unwrap(), 10)
+            if c.is_none() || (!char::is_digit(c.unwrap(), 10)
             && ((c != Some('+') && c != Some('-'))
-             || !char::is_digit(str.chars().nth(ps + 1).unwrap(), 10)) {
+             || !str.chars().nth(ps + 1).is_some_and(|d| char::is_digit(d, 10)))) {
                 // return NaN
                 res.w[1] = 0x7c00000000000000u64;
                 res.w[0] = 0;
@@ -583,20 +583,20 @@ fn bid128_from_string_clear_status(str: &str, rnd_mode: RoundingMode, pfpsf: &mu
                         carry = 0;
                         i    += 1;
                     }
-                    if buffer[i..ndigits_total].iter().any(|c| *c as i32 > '0' as i32) {
+                    if buffer[i..ndigits_total.min(MAX_STRING_DIGITS_128)].iter().any(|c| *c as i32 > '0' as i32) {
                         carry = 1;
                     }
                 }
             },
             RoundingMode::Downward => {
                 if sign_x != 0
-                && buffer[i..ndigits_total].iter().any(|c| *c as i32 > '0' as i32) {
+                && buffer[i..ndigits_total.min(MAX_STRING_DIGITS_128)].iter().any(|c| *c as i32 > '0' as i32) {
                     carry = 1;
                 }
             },
             RoundingMode::Upward => {
                 if sign_x == 0
-                && buffer[i..ndigits_total].iter().any(|c| *c as i32 > '0' as i32) {
+                && buffer[i..ndigits_total.min(MAX_STRING_DIGITS_128)].iter().any(|c| *c as i32 > '0' as i32) {
                     carry = 1;
                 }
             },
@@ -607,7 +607,7 @@ fn bid128_from_string_clear_status(str: &str, rnd_mode: RoundingMode, pfpsf: &mu
                 let digit = char::to_digit(buffer[i], 10).unwrap() as i32;
                 carry = (((4 - digit) as u32) >> 31) as BID_UINT64;
                 if dec_expon < 0
-                && buffer[i..ndigits_total].iter().any(|c| *c as i32 > '0' as i32) {
+                && buffer[i..ndigits_total.min(MAX_STRING_DIGITS_128)].iter().any(|c| *c as i32 > '0' as i32) {
                     carry = 1;
                 }
             }
